@@ -11,7 +11,7 @@ RULE = (
     "Generated HyperbandScheduler(type=stopping|rush_stopping, searcher=random) arguments (grace period, reduction "
     "factor incl. non-integer, or rung increment, or explicit rung list, max_t, 1..4 brackets shared/per-bracket, mode) and "
     "per-trial metric curves (general position or small-integer ties), driven by the protocol driver through every "
-    "tape-chosen interleaving of up to 4 concurrent trials. Oracle: reference model written from the doc-strings "
+    "tape-chosen interleaving of up to 4 concurrent trials; in a quarter of the cases running trials fail at tape-chosen points (the decisions for the others must not change). Oracle: reference model written from the doc-strings "
     "(numpy.quantile with q = r_j/r_{j+1}, bracket offset, once per rung, STOP at max_t, RUSH thresholds); decision and "
     "rung contents are compared after every event; a metric within 4 ulp of the cut-off may go either way. "
     "Non-trivial = a decision taken at a rung holding >= 2 entries; distinct = distinct choice tape."
